@@ -155,9 +155,10 @@ def run(chk):
     # (D) DTLS 1.3 handshakes whose flights span several datagrams (spec/Handshake13F.tla scripts: partial acknowledgements,
     # selective retransmission of message remainders, time-outs): the numbers of all sealed records, per side and epoch
     import hsreplay13f
+    plain = vlib.build("root")      # the script lab reads the machines' state between steps: not for the race-detector build
     for variant in ("", "m400"):
-        s13f = hsreplay13f.generate(chk, limit=1500 if chk.quick else 4000, variant=variant)   # (thorough: race-detector build)
-        frows, fsumm = hsreplay13f.replay(chk, binary, s13f, variant=variant)
+        s13f = hsreplay13f.generate(chk, limit=1500 if chk.quick else 12000, variant=variant)
+        frows, fsumm = hsreplay13f.replay(chk, plain, s13f, variant=variant)
         nnum = 0
         for r in frows:
             for v in [x for x in r.get("law", []) if "C09" in x][:1]:
